@@ -103,6 +103,8 @@ let make_oracles cfg : oracles =
             if starts_with p "die:a" then (if ends_with p ":sig" then QQ_signal else
                                              let c = int_of_string (List.nth (String.split_on_char ':' p) 3) in
                                              if c = 0 then QQ_ok else QQ_exit (nat_of_int c))
+            else if starts_with p "die:b" then QQ_die_early
+            else if starts_with p "die:m" && int_of_string (List.nth (String.split_on_char ':' p) 2) <= 150 then QQ_die_early
             else QQ_die_write
         | Some _ -> QQ_ok);
     o_databytes = n_of_int (int_of_string (cfg "databytes" "0"));
